@@ -523,6 +523,15 @@ func (t *tr) calleeKey(fun ast.Expr) string {
 }
 
 func (t *tr) call(e *ast.CallExpr, en env) V {
+	if inner, ok := e.Fun.(*ast.CallExpr); ok {
+		// `f(k)(ctx)` where f stands for a closure unit (see the unrolled range over a list of functions)
+		if fv, ok := en.m[identName(inner.Fun)]; ok && identName(inner.Fun) != "" && fv.t == "FuncRef" {
+			if u, ok := t.reg["."+fv.lean]; ok {
+				return t.unitCall(u, nil, append(append([]ast.Expr{}, inner.Args...), e.Args...), en)
+			}
+		}
+		return t.bad("call of a function value")
+	}
 	// kind C: oracle / effect / ignored calls are recognised by the rendered callee
 	callee := t.calleeKey(e.Fun)
 	if callee == "sdk.UnwrapSDKContext" {
@@ -1870,6 +1879,20 @@ func hasJump(b *ast.BlockStmt) bool {
 	return found
 }
 
+func hasBreakOrContinue(b *ast.BlockStmt) bool {
+	found := false
+	ast.Inspect(b, func(n ast.Node) bool {
+		switch n.(type) {
+		case *ast.BranchStmt:
+			found = true
+		case *ast.FuncLit, *ast.RangeStmt, *ast.ForStmt:
+			return false
+		}
+		return !found
+	})
+	return found
+}
+
 // hasLoop: a loop is translated to a match on `Loop.ret`/`Loop.done`, whose first arm has the type
 // of the enclosing function's continuation — it cannot sit inside a join
 func hasLoop(b *ast.BlockStmt) bool {
@@ -1907,6 +1930,28 @@ func (t *tr) rangeLoop(s *ast.RangeStmt, en env, next cont) string {
 	}
 	if keys, ok := t.u.MapKeys[t.w.render(s.X)]; ok {
 		return t.mapRange(s, keys, en, next)
+	}
+	if cl, ok := s.X.(*ast.CompositeLit); ok && s.Value != nil && identName(s.Key) == "_" {
+		// `for _, f := range []func(…) …{A, B, C} { … f(…)(…) … }` over a LITERAL list of named
+		// functions that are units: the loop is unrolled, `f` standing for A, then B, then C
+		allUnits := len(cl.Elts) > 0
+		for _, el := range cl.Elts {
+			if u, ok := t.reg["."+identName(el)]; !ok || identName(el) == "" || !u.Closure {
+				allUnits = false
+			}
+		}
+		if _, isArr := cl.Type.(*ast.ArrayType); isArr && allUnits && !hasBreakOrContinue(s.Body) {
+			var step func(i int, e2 env) string
+			step = func(i int, e2 env) string {
+				if i == len(cl.Elts) {
+					return next(en)
+				}
+				e3 := e2.deeper()
+				e3.m[identName(s.Value)] = evar{identName(cl.Elts[i]), "FuncRef", e3.depth}
+				return t.stmts(s.Body.List, e3, func(env) string { return step(i+1, en) })
+			}
+			return step(0, en)
+		}
 	}
 	xs := t.expr(s.X, en)
 	if strings.HasPrefix(xs.T, "Map ") && len(t.u.MapKeyOrder) > 0 {
